@@ -25,7 +25,7 @@ import random
 
 import numpy as np
 
-from ..core import Machinery, validate_trace
+from ..core import Machinery, validate_trace, run_tlc
 from ..fx_vertical import dec, LevelsPressureProfile, clear_opacities, register_flat_opacity
 
 S = 100000000          # scale of sigma / declared magnitude in the trace (1e-8 resolution)
@@ -40,6 +40,39 @@ HAZE_CLAUSES = ['haze_evaluates', 'haze_wellformed', 'haze_finite_nonnegative', 
 DECK_CLAUSES = ['opaque_at_and_below_deck', 'untouched_above']
 DECK_MODEL_CLAUSES = ['model_opaque_at_and_below_deck', 'model_untouched_above', 'depth_at_least_opaque_integral']
 MIX_CLAUSES = ['mix_wellformed', 'model_transmittance_is_product']
+SLABS_CLAUSES = ['slabs_wellformed', 'slabs_transmittance_is_product']
+FRAME_CLAUSE = 'model_arrays_untouched'
+# every array a model exposes to the contributions it prepares (by reference)
+EXPOSED = [('pressure_levels', lambda m: m.pressure.pressure_profile_levels),
+           ('pressure_layers', lambda m: m.pressureProfile),
+           ('temperature', lambda m: m.temperatureProfile),
+           ('density', lambda m: m.densityProfile),
+           ('altitude', lambda m: m.altitudeProfile),
+           ('scaleheight', lambda m: m.scaleheight_profile),
+           ('gravity', lambda m: m.gravity_profile),
+           ('deltaz', lambda m: m.deltaz),
+           ('active_mix', lambda m: m.chemistry.activeGasMixProfile),
+           ('inactive_mix', lambda m: m.chemistry.inactiveGasMixProfile),
+           ('mu', lambda m: m.chemistry.muProfile),
+           ('wngrid_native', lambda m: m.nativeWavenumberGrid)]
+
+
+def snapshot(model):
+    """private copies of the contents of every exposed array"""
+    out = {}
+    for name, get in EXPOSED:
+        try:
+            a = get(model)
+            out[name] = None if a is None else np.array(a, dtype=float, copy=True)
+        except Exception:
+            out[name] = None
+    return out
+
+
+def same_array(a, b):
+    if a is None or b is None:
+        return a is None and b is None
+    return a.shape == b.shape and bool(np.array_equal(a, b, equal_nan=True))
 
 
 def _imports():
@@ -93,32 +126,54 @@ class World:
         self.levels = np.asarray(self.model.pressure.pressure_profile_levels, dtype=float).copy()
         self.layers = np.asarray(self.model.pressureProfile, dtype=float).copy()
         self._clear = None
+        self.touched = set()     # exposed arrays found modified since the current event started
+        self.ref = None          # what the model computed: taken on the first evaluation with gas absorption only
+
+    def check_frame(self):
+        """re-read every array the model exposes and compare with the private copy of what the model computed
+        for the same settings (every prepare() / model() below is preceded by a re-computation of the profiles,
+        which is deterministic, so any difference was written by a contribution)"""
+        if self.ref is None:
+            return
+        now = snapshot(self.model)
+        for name, _ in EXPOSED:
+            if not same_array(now[name], self.ref[name]):
+                self.touched.add(name)
 
     def clear(self):
         if self._clear is None:
             self.model.contribution_list = [self.absorption]
+            self.model.initialize_profiles()
+            first = snapshot(self.model)
             g, depth, tr, _ = self.model.model()
             self._clear = (np.array(depth, dtype=float), np.array(tr, dtype=float))
+            if self.ref is None:
+                self.ref = first
+            self.check_frame()
         return self._clear
 
     def with_contribution(self, c):
+        self.clear()
         self.model.contribution_list = [self.absorption, c]
         self.model.contribution_list.sort(key=lambda x: x.order)
         try:
             g, depth, tr, _ = self.model.model()
         finally:
             self.model.contribution_list = [self.absorption]
+            self.check_frame()
         return np.array(depth, dtype=float), np.array(tr, dtype=float)
 
     def run_list(self, lst):
         """model() with exactly the contributions `lst`, added in that order through the public API path
         (build() sorts by the contributions' declared order, stable)."""
+        self.clear()
         self.model.contribution_list = list(lst)
         try:
             self.model.build()
             g, depth, tr, _ = self.model.model()
         finally:
             self.model.contribution_list = [self.absorption]
+            self.check_frame()
         return np.array(depth, dtype=float), np.array(tr, dtype=float)
 
     def regrid(self, pmin, pmax):
@@ -131,10 +186,18 @@ class World:
         self.levels = np.asarray(self.model.pressure.pressure_profile_levels, dtype=float).copy()
         self.layers = np.asarray(self.model.pressureProfile, dtype=float).copy()
         self._clear = None
+        self.ref = None
 
     def prepare(self, c):
+        self.clear()
         self.model.initialize_profiles()
-        c.prepare(self.model, WN)
+        wn = WN.copy()
+        try:
+            c.prepare(self.model, wn)
+        finally:
+            self.check_frame()
+            if not same_array(wn, WN):
+                self.touched.add('wngrid_argument')
         return np.array(c.sigma_xsec, dtype=float)
 
 
@@ -198,8 +261,9 @@ def tobs(x):
 def mix_event(world, eid, c):
     """The cloud / haze `c` next to the band-saturating absorber in ONE model: transmittance with the
     absorber alone, with c alone, and with both in either order of addition."""
+    world.touched = set()
     depth0, ta = world.clear()
-    e = dict(ev='mix', id=eid, ppb=PPB_MIX, ta=[], th=[], tb=[], raised=False)
+    e = dict(ev='mix', id=eid, ppb=PPB_MIX, ta=[], th=[], tb=[], raised=False, frame=[])
     try:
         _, th = world.run_list([c])
         both = [world.run_list([world.absorption, c])[1], world.run_list([c, world.absorption])[1]]
@@ -207,6 +271,8 @@ def mix_event(world, eid, c):
         e['raised'] = True
         e['exception'] = repr(ex)[:200]
         return e
+    finally:
+        e['frame'] = sorted(world.touched)
     e['ta'] = [[tobs(x) for x in row] for row in ta]
     e['th'] = [[tobs(x) for x in row] for row in th]
     e['tb'] = [[[tobs(x) for x in row] for row in tb] for tb in both]
@@ -221,15 +287,18 @@ def mix_event(world, eid, c):
 def haze_event(world, eid, kind, lev_pos, b, t, pb, pt, par, run_model, mix=False, reuse=None):
     """Drive the real contribution; log what happened."""
     X = world.X
-    e = dict(ev='haze', id=eid, kind=kind, lev=lev_pos, b=b, t=t, S=S, raised=False, model=False, ms=[], rowsame=[], rowle=[])
+    e = dict(ev='haze', id=eid, kind=kind, lev=lev_pos, b=b, t=t, S=S, raised=False, model=False, ms=[], rowsame=[], rowle=[], frame=[])
     info = dict(pb=pb, pt=pt, par=par)
+    world.touched = set()
     try:
         c, mag = make_haze(X, kind, pb, pt, par, reuse)
         sigma = world.prepare(c)
     except Exception as ex:      # an exception is an outcome of the code under test, judged by the spec
         e['raised'] = True
+        e['frame'] = sorted(world.touched)
         info['exception'] = repr(ex)[:200]
         return e, info, None, None
+    e['frame'] = sorted(world.touched)
     if sigma.shape != (world.n, len(WN)):
         e['ms'] = [[]]
         return e, info, sigma, mag
@@ -244,6 +313,9 @@ def haze_event(world, eid, kind, lev_pos, b, t, pb, pt, par, run_model, mix=Fals
         except Exception as ex:
             e['raised'] = True
             info['exception'] = repr(ex)[:200]
+        e['frame'] = sorted(world.touched)
+    if e['frame']:
+        info['modified_in_place'] = list(e['frame'])
     if mix and not e['raised']:
         info['_mix'] = mix_event(world, eid + ':mix', c)
     return e, info, sigma, mag
@@ -256,13 +328,9 @@ def deck_event(world, eid, cen2, deckpos, pdeck, run_model, mix=False, reuse=Non
     else:
         c = reuse
         c.cloudsPressure = pdeck
+    world.touched = set()
     sigma = world.prepare(c)
-    sig = []
-    for k in range(world.n):
-        row = sigma[k]
-        sig.append('inf' if np.all(np.isposinf(row)) else ('zero' if np.all(row == 0.0) else 'other'))
-    e = dict(ev='deck', id=eid, cen2=cen2, deck=deckpos, sig=sig, model=False, iszero=[], issame=[], z=[], dz=[],
-             rad=[0, 0], rs=[0, 0], depth=[0, 0], dw=[0, 0], cw=[0, 0], ppb=PPB)
+    e = deck_record(eid, cen2, deckpos, sigma, world.n)
     if run_model:
         depth0, tr0 = world.clear()
         depth1, tr1 = world.with_contribution(c)
@@ -277,10 +345,119 @@ def deck_event(world, eid, cen2, deckpos, pdeck, run_model, mix=False, reuse=Non
         w = int(np.argmin(depth1 / depth0))
         e['depth'] = dec(float(np.min(depth1)))
         e['dw'], e['cw'] = dec(float(depth1[w])), dec(float(depth0[w]))
+    e['frame'] = sorted(world.touched)
     info = dict(pdeck=pdeck)
+    if e['frame']:
+        info['modified_in_place'] = list(e['frame'])
     if mix:
         info['_mix'] = mix_event(world, eid + ':mix', c)
     return e, info
+
+
+def deck_record(eid, cen2, deckpos, sigma, n):
+    """class of sigma_xsec per layer (a wrong shape is an outcome: every layer 'other')"""
+    sig = []
+    ok = sigma is not None and getattr(sigma, 'ndim', 0) == 2 and sigma.shape[0] == n
+    for k in range(n):
+        if not ok:
+            sig.append('other')
+            continue
+        row = sigma[k]
+        sig.append('inf' if np.all(np.isposinf(row)) else ('zero' if np.all(row == 0.0) else 'other'))
+    return dict(ev='deck', id=eid, cen2=cen2, deck=deckpos, sig=sig, model=False, iszero=[], issame=[], z=[], dz=[],
+                rad=[0, 0], rs=[0, 0], depth=[0, 0], dw=[0, 0], cw=[0, 0], ppb=PPB, frame=[])
+
+
+def obs_rows(tr, n):
+    a = np.asarray(tr, dtype=float)
+    if a.ndim != 2:
+        return []
+    return [[tobs(x) for x in row] for row in a]
+
+
+def make_slab(X, sp, reuse=None):
+    if sp['kind'] == 'deck':
+        if reuse is None:
+            return X['SimpleCloudsContribution'](clouds_pressure=sp['pdeck']), None
+        reuse.cloudsPressure = sp['pdeck']
+        return reuse, None
+    return make_haze(X, sp['kind'], sp['pb'], sp['pt'], sp['par'], reuse)
+
+
+def slab_cls(sp, grid, lev_pos, hist=''):
+    if sp['kind'] == 'deck':
+        return 'deck:%s%s:%s' % (grid, hist, sp.get('dc', 'any'))
+    inv = sp['b']['set'] and sp['t']['set'] and sp['b']['x'] < sp['t']['x']
+    return '%s:%s%s:b=%s:t=%s%s' % (sp['kind'], grid, hist, sp.get('cb') or bclass(sp['b'], lev_pos),
+                                   sp.get('ct') or bclass(sp['t'], lev_pos), ':inverted' if inv else '')
+
+
+def slabs_event(world, eid, specs, lev_pos, cen2, grid, with_abs, hist='', reuse=None):
+    """SEVERAL clouds / hazes in ONE model (specs: kind + own bounds / deck + magnitude each): model() with all of
+    them in the listed order, in the reversed order (and a rotation for three), with or without the band-
+    saturating absorber (first / last in the list).  After every such run the sigma_xsec EVERY slab holds is
+    logged as an ordinary haze / deck event with the slab's own bounds; the main event compares the transmittance
+    with all of them with the product of the transmittances with each alone.
+    -> (main event, info, [(slab event, cls, info, sub, sigma, mag, index)])"""
+    X = world.X
+    m = len(specs)
+    e = dict(ev='slabs', id=eid, ppb=PPB_MIX, alone=[], tb=[], raised=False, frame=[])
+    info = dict(slabs=[{k: v for k, v in sp.items() if k in ('kind', 'pb', 'pt', 'pdeck', 'par')} for sp in specs], with_absorber=with_abs)
+    subs = []
+    world.touched = set()
+    try:
+        objs, used = [], set()
+        for sp in specs:
+            r = None
+            if reuse is not None and sp['kind'] not in used:      # the long-lived object of that kind, then new ones
+                if sp['kind'] not in reuse:
+                    reuse[sp['kind']] = make_slab(X, sp)[0]
+                r = reuse[sp['kind']]
+            used.add(sp['kind'])
+            objs.append(make_slab(X, sp, r))
+        if with_abs:
+            e['alone'].append(obs_rows(world.clear()[1], world.n))
+        for c, _ in objs:
+            e['alone'].append(obs_rows(world.run_list([c])[1], world.n))
+        orders = [list(range(m)), list(range(m))[::-1]] + ([[1, 2, 0]] if m == 3 else [])
+        for o, order in enumerate(orders):
+            lst = [objs[j][0] for j in order]
+            if with_abs:
+                lst = [world.absorption] + lst if o % 2 == 0 else lst + [world.absorption]
+            prep = sorted([c for c in lst if c is not world.absorption], key=lambda c: c.order)   # build() sorts likewise (stable)
+            e['tb'].append(obs_rows(world.run_list(lst)[1], world.n))
+            for j, sp in enumerate(specs):
+                c, mag = objs[j]
+                sub = ':o%d:s%d' % (o, j)
+                try:
+                    sigma = np.array(c.sigma_xsec, dtype=float)
+                except Exception:
+                    sigma = None
+                if sp['kind'] == 'deck':
+                    se = deck_record(eid + sub, cen2, sp['deckpos'], sigma, world.n)
+                else:
+                    se = dict(ev='haze', id=eid + sub, kind=sp['kind'], lev=lev_pos, b=sp['b'], t=sp['t'], S=S, raised=False,
+                              model=False, ms=[[]], rowsame=[], rowle=[], frame=[])
+                    if sigma is not None and sigma.shape == (world.n, len(WN)):
+                        se['ms'] = scaled_rows(sigma, mag)
+                before = [specs[objs_index(objs, x)]['kind'] for x in prep[:prep.index(c)]]
+                cls = '%s:slab%dof%d:after=%s%s' % (slab_cls(sp, grid, lev_pos, hist), len(before) + 1, m, '+'.join(before) or 'none',
+                                                    ':with-band-absorber' if with_abs else '')
+                subs.append((se, cls, dict(info, slab=j, order=order), sub, sigma, mag, j))
+    except Exception as ex:
+        e['raised'] = True
+        e['exception'] = repr(ex)[:200]
+    e['frame'] = sorted(world.touched)
+    if e['frame']:
+        info['modified_in_place'] = list(e['frame'])
+    return e, info, subs
+
+
+def objs_index(objs, c):
+    for j, (x, _) in enumerate(objs):
+        if x is c:
+            return j
+    raise Machinery('contribution not in the list')
 
 
 def exact_checks(ctx, e, adm, sigma, mag, cls, vec):
@@ -322,7 +499,7 @@ def haze_cls(kind, grid, b, t, lev_pos):
 def judge(ctx, events, meta, label):
     if not events:
         raise Machinery('no events for ' + label)
-    accepted, bad, res = validate_trace('Trace_Clouds', 'Trace_Clouds.cfg', [e for e in events if not (e['ev'] == 'mix' and e['raised'])], timeout=1500)
+    accepted, bad, res = validate_trace('Trace_Clouds', 'Trace_Clouds.cfg', [e for e in events if not (e['ev'] in ('mix', 'slabs') and e['raised'])], timeout=1500)
     ctx.add_tlc('trace-' + label, res, counts=False)
     if res.postcondition_false and not bad:
         raise Machinery('trace spec did not consume the whole trace:\n' + res.out[-1500:])
@@ -331,18 +508,18 @@ def judge(ctx, events, meta, label):
         why = badids.get(e['id'], set())
         cls, vec, info = meta[e['id']]
         if e['ev'] == 'haze':
-            clauses = HAZE_CLAUSES + (['model_rows_untouched_outside_window'] if e['model'] else [])
-        elif e['ev'] == 'mix':
-            clauses = MIX_CLAUSES
+            clauses = HAZE_CLAUSES + (['model_rows_untouched_outside_window'] if e['model'] else []) + [FRAME_CLAUSE]
+        elif e['ev'] in ('mix', 'slabs'):
+            clauses = (MIX_CLAUSES if e['ev'] == 'mix' else SLABS_CLAUSES) + [FRAME_CLAUSE]
             if e['raised']:
-                ctx.verdict('mix_evaluates', False, cls=cls, detail='model() raised: %s' % e.get('exception'), vector=dict(vec, event=dict(id=e['id'])))
+                ctx.verdict(e['ev'] + '_evaluates', False, cls=cls, detail='model() raised: %s' % e.get('exception'), vector=dict(vec, event=dict(id=e['id'])))
                 continue
-            vec = dict(vec, event=dict(id=e['id'], ev='mix'))     # the rows are regenerated on replay
+            vec = dict(vec, event=dict(id=e['id'], ev=e['ev']))     # the rows are regenerated on replay
             for c in clauses:
                 ctx.verdict(c, c not in why, cls=cls, detail='TLC rejected %s: %s; %s' % (e['id'], sorted(why), info), vector=vec)
             continue
         else:
-            clauses = DECK_CLAUSES + (DECK_MODEL_CLAUSES if e['model'] else [])
+            clauses = DECK_CLAUSES + (DECK_MODEL_CLAUSES if e['model'] else []) + [FRAME_CLAUSE]
         for c in clauses:
             ctx.verdict(c, c not in why, cls=cls, detail='TLC rejected %s: %s; %s' % (e['id'], sorted(why), info),
                         vector=dict(vec, event=e))
@@ -419,6 +596,64 @@ def run_vectors(ctx, vecs, X, rng):
     return len(events)
 
 
+# --------------------------------------------------------------------------- binding A': slab lists generated by TLC
+SLAB_PARS = dict(flat=[dict(mix=3.0e-27), dict(mix=7.0e-27), dict(mix=1.1e-26)],
+                 lee=[dict(a=0.7, q=40.0, mix=2.0e-12), dict(a=0.3, q=20.0, mix=5.0e-12), dict(a=1.5, q=60.0, mix=1.0e-12)])
+
+
+def slab_specs_from_vector(v, pos2p):
+    lev_pos = v['lev']
+    cen2 = [lev_pos[k] + lev_pos[k + 1] for k in range(len(lev_pos) - 1)]
+    specs = []
+    for j, sl in enumerate(v['slabs']):
+        if sl['kind'] == 'deck':
+            d = sl['deck']
+            dc = 'below-surface' if 2 * d > cen2[0] else ('above-top' if 2 * d <= cen2[-1] else ('on-layer-pressure' if 2 * d in cen2 else 'inside'))
+            specs.append(dict(kind='deck', deckpos=d, pdeck=pos2p(d), dc=dc))
+        else:
+            specs.append(dict(kind=sl['kind'], b=sl['b'], t=sl['t'], pb=bound_value(sl['b'], pos2p), pt=bound_value(sl['t'], pos2p),
+                              par=SLAB_PARS[sl['kind']][j % 3], adm=sl['adm'], inv=sl['inv']))
+    return specs, cen2
+
+
+def slab_vector_events(X, v, pclass, with_abs, eid, cache):
+    world = world_for_grid(X, v['lev'], pclass, cache)
+    specs, cen2 = slab_specs_from_vector(v, pos2p_factory(world, v['lev']))
+    e, info, subs = slabs_event(world, eid, specs, v['lev'], cen2, pclass, with_abs)
+    kinds = '+'.join(sp['kind'] for sp in specs)
+    return e, 'slabs:%s:%s%s' % (pclass, kinds, ':with-band-absorber' if with_abs else ''), info, subs, specs
+
+
+def run_slab_vectors(ctx, X, nwalks):
+    """Binding A' (MC_CloudsSlabs): behaviours of the design model (a grid, 2..3 slabs of any kind with their own
+    bounds, in an order) generated by TLC, replayed on real contribution objects in ONE real model."""
+    res = run_tlc('MC_CloudsSlabs', 'SIM_CloudsSlabs.cfg', workers=1, simulate='num=%d' % nwalks, depth=12, seed=ctx.seed + 19)
+    ctx.add_tlc('simulate-slabs', res, counts=False)
+    vecs = res.tagged('SLABS')
+    if res.violated or len(vecs) < nwalks // 2:
+        raise Machinery('MC_CloudsSlabs simulation: %d slab lists, violated=%r' % (len(vecs), res.violated))
+    cache, events, meta, post = {}, [], {}, []
+    for j, v in enumerate(vecs):
+        n = len(v['lev']) - 1
+        sp = {v['lev'][k] - v['lev'][k + 1] for k in range(n)}
+        for pclass in ['levels'] + (['simple'] if len(sp) == 1 else []):
+            eid = 'S%d:%s' % (j, pclass)
+            with_abs = (j % 2 == 1)
+            e, cls, info, subs, specs = slab_vector_events(X, v, pclass, with_abs, eid, cache)
+            base = dict(slabvec=v, pclass=pclass, with_abs=with_abs)
+            meta[eid] = (cls, base, info)
+            events.append(e)
+            for se, scls, sinfo, sub, sigma, mag, idx in subs:
+                meta[se['id']] = (scls, dict(base, sub=sub), sinfo)
+                events.append(se)
+                if se['ev'] == 'haze':
+                    post.append((se, specs[idx]['adm'], sigma, mag, scls, dict(base, sub=sub, inv=specs[idx]['inv'])))
+    ctx.traces += len(vecs)
+    ctx.add_sample(dict(slabs_vector=vecs[0]))
+    ctx.note("binding A': %d TLC-generated lists of 2..3 slabs in one model, %d events (judged together with the random events)" % (len(vecs), len(events)))
+    return events, meta, post
+
+
 # --------------------------------------------------------------------------- binding B
 def lpos(p):
     return int(round(1.0e6 * math.log10(p)))
@@ -473,6 +708,31 @@ def random_bound(rng, world, kind_hint):
     return dict(set=False, x=0), -1, 'unset'
 
 
+SLABS_SHARE = 0.12
+
+
+def random_par(rng, kind):
+    if kind == 'flat':
+        return dict(mix=10.0 ** rng.uniform(-30, -24))
+    return dict(a=10.0 ** rng.uniform(-2, 0.5), q=rng.uniform(1.0, 80.0), mix=10.0 ** rng.uniform(-14, -10))
+
+
+def random_deck(rng, world, cen2):
+    n = world.n
+    q = rng.random()
+    if q < 0.35:
+        return float(world.layers[rng.randrange(n)]), 'on-layer-pressure'
+    if q < 0.5:
+        return float(world.layers[0]) * 10.0 ** rng.uniform(0.01, 2.0), 'below-surface'
+    if q < 0.65:
+        return float(world.layers[-1]) * 10.0 ** (-rng.uniform(0.01, 2.0)), 'above-top'
+    for _ in range(50):
+        p = 10.0 ** rng.uniform(math.log10(world.layers[-1]), math.log10(world.layers[0]))
+        if all(abs(2 * lpos(p) - c) > 400 for c in cen2):
+            break
+    return p, 'inside'
+
+
 def random_event(world, grid, esub, eid, run_model, mix=False, long_lived=False):
     """One random deck / haze event on a built world, fully determined by the sub-seed esub.
     long_lived: the contribution object of that kind is the one the world has used before (settings
@@ -491,21 +751,27 @@ def random_event(world, grid, esub, eid, run_model, mix=False, long_lived=False)
     cen2 = [2 * lpos(p) for p in world.layers]
     recipe = dict(random=True, n=n, grid=grid, esub=esub, run_model=run_model, mix=mix)
     hist = ':after-history' if long_lived else ''
+    if run_model and rng.random() < SLABS_SHARE:
+        # several clouds / hazes of any kinds in the same model, each with its own random range
+        specs = []
+        for _ in range(rng.choice([2, 2, 3])):
+            k = rng.random()
+            if k < 0.2:
+                p, dc = random_deck(rng, world, cen2)
+                specs.append(dict(kind='deck', deckpos=lpos(p), pdeck=p, dc=dc))
+            else:
+                kind = 'flat' if k < 0.65 else 'lee'
+                b, pb, cb = random_bound(rng, world, kind)
+                t, pt, ct = random_bound(rng, world, kind)
+                specs.append(dict(kind=kind, b=b, t=t, pb=pb, pt=pt, cb=cb, ct=ct, par=random_par(rng, kind)))
+        with_abs = rng.random() < 0.5
+        e, info, subs = slabs_event(world, eid, specs, lev_pos, cen2, grid, with_abs, hist=hist, reuse=reuse if long_lived else None)
+        info['_extra'] = [(se, scls, sinfo, sub) for se, scls, sinfo, sub, _, _, _ in subs]
+        cls = 'slabs:%s%s:%s%s' % (grid, hist, '+'.join(sp['kind'] for sp in specs), ':with-band-absorber' if with_abs else '')
+        return e, cls, recipe, info
     r = rng.random()
     if r < 0.25:
-        q = rng.random()
-        if q < 0.35:
-            p = float(world.layers[rng.randrange(n)]); dc = 'on-layer-pressure'
-        elif q < 0.5:
-            p = float(world.layers[0]) * 10.0 ** rng.uniform(0.01, 2.0); dc = 'below-surface'
-        elif q < 0.65:
-            p = float(world.layers[-1]) * 10.0 ** (-rng.uniform(0.01, 2.0)); dc = 'above-top'
-        else:
-            dc = 'inside'
-            for _ in range(50):
-                p = 10.0 ** rng.uniform(math.log10(world.layers[-1]), math.log10(world.layers[0]))
-                if all(abs(2 * lpos(p) - c) > 400 for c in cen2):
-                    break
+        p, dc = random_deck(rng, world, cen2)
         if long_lived and 'deck' not in reuse:
             reuse['deck'] = world.X['SimpleCloudsContribution'](clouds_pressure=p)
         e, info = deck_event(world, eid, cen2, lpos(p), p, run_model and rng.random() < 0.5, mix=mix, reuse=reuse.get('deck'))
@@ -513,8 +779,7 @@ def random_event(world, grid, esub, eid, run_model, mix=False, long_lived=False)
     kind = 'flat' if r < 0.65 else 'lee'
     b, pb, cb = random_bound(rng, world, kind)
     t, pt, ct = random_bound(rng, world, kind)
-    par = dict(mix=10.0 ** rng.uniform(-30, -24)) if kind == 'flat' else \
-        dict(a=10.0 ** rng.uniform(-2, 0.5), q=rng.uniform(1.0, 80.0), mix=10.0 ** rng.uniform(-14, -10))
+    par = random_par(rng, kind)
     if long_lived and kind not in reuse:
         reuse[kind] = make_haze(world.X, kind, pb, pt, par)[0]
     e, info, sigma, mag = haze_event(world, eid, kind, lev_pos, b, t, pb, pt, par, run_model and rng.random() < 0.3,
@@ -540,15 +805,19 @@ def long_sequence(X, wsub, n, count):
 
 def add_event(events, meta, e, cls, vec, info):
     m = info.pop('_mix', None)
+    extra = info.pop('_extra', [])
     meta[e['id']] = (cls, vec, info)
     events.append(e)
     if m is not None:
         meta[m['id']] = (cls + ':with-band-absorber', dict(vec, mix_only=True), dict(info))
         events.append(m)
+    for se, scls, sinfo, sub in extra:
+        meta[se['id']] = (scls, dict(vec, sub=sub), sinfo)
+        events.append(se)
 
 
-def run_random(ctx, X, rng, nworlds, per_world, model_max_n):
-    events, meta = [], {}
+def run_random(ctx, X, rng, nworlds, per_world, model_max_n, pre=None):
+    events, meta, post = pre if pre is not None else ([], {}, [])
     nw = skipped = 0
     sizes = [2, 3, 5, 100] + [rng.randint(2, 100) for _ in range(nworlds - 4)]
     for n in sizes:
@@ -580,6 +849,8 @@ def run_random(ctx, X, rng, nworlds, per_world, model_max_n):
         for j, (e, cls, recipe, info) in enumerate(seq):
             add_event(events, meta, e, cls, dict(recipe, wsub=wsub, long=j), info)
     badids = judge(ctx, events, meta, 'random')
+    for se, adm, sigma, mag, cls, vec in post:
+        exact_checks(ctx, se, adm, sigma, mag, cls, vec)
     ctx.traces += len(events)
     ctx.note('binding B: %d grids (%d skipped: derived levels not decreasing) + %d long-lived worlds, %d events' % (nw, skipped, nlong, len(events)))
     ctx.add_sample(dict(trace_event={k: (v if not isinstance(v, list) or len(v) < 12 else v[:12]) for k, v in events[-1].items()}))
@@ -642,6 +913,23 @@ def run_canaries(events, badids):
         g2 = dict(e); g2['id'] = 'canary-mix-good'; can.append(g2)
     elif not badids:
         raise Machinery('no mix event available for the canary')
+    if hz:
+        fr = dict(hz[-1]); fr['frame'] = ['pressure_levels']; fr['id'] = 'canary-frame'; can.append(fr); want.append('canary-frame')
+    sl = [e for e in good if e['ev'] == 'slabs' and not e['raised'] and not e['frame']]
+    spot = None
+    for e in sl:
+        for k, row in enumerate(e['tb'][0]):
+            for w, o in enumerate(row):
+                if o[0] > 0 and o[1] >= -11 and spot is None:      # a transmittance above 1e-3
+                    spot = (e, k, w)
+    if spot:
+        e, k, w = spot
+        m = dict(e); m['tb'] = [[[list(o) for o in row] for row in tb] for tb in e['tb']]
+        m['tb'][0][k][w][0] = m['tb'][0][k][w][0] // 2 + 1          # one slab counted twice / lost
+        m['id'] = 'canary-slabs'; can.append(m); want.append('canary-slabs')
+        g3 = dict(e); g3['id'] = 'canary-slabs-good'; can.append(g3)
+    elif not badids:
+        raise Machinery('no slabs event available for the canary')
     if not can:
         return
     ok, bad, res = validate_trace('Trace_Clouds', 'Trace_Clouds.cfg', can)
@@ -727,16 +1015,24 @@ def run(ctx):
     ctx.bounds = dict(tier=ctx.tier,
                       exhaustive='<=%d layers, spacings {1,2} dex in any order, bounds/deck on every half-dex position from one dex above the top to one dex below the surface and "unset", both orders; clear transmittances in {0,1/2,1}' % (3 if q else 5),
                       vectors='every exported (grid, bounds/deck) of the %d-layer export config through prepare() and model()' % (3 if q else 4) + ' on explicit-level grids and, for uniform grids, SimplePressureProfile',
+                      slabs='MC_CloudsSlabs: 2 slabs of any kind on grids of <= 2 layers exhaustively; simulated lists of 2..3 slabs on <= 3 layers replayed on real objects; random lists of 2..3 slabs on random grids of <= %d layers' % (40 if q else 100),
                       traces='random grids 2..100 layers (simple / array / explicit levels), random bounds of 6 classes, random magnitudes, Lee radius 0.01..3 um, Q 1..80')
     ctx.assumptions = ['log10 of pressures is evaluated by the harness (positions round(1e6 log10 P)); random bounds are either float-identical to an exposed level / layer pressure or at least 2e-4 dex away from all of them',
                        'Lee Qext law evaluated by the harness from the documented formula (uninterpreted positive table for the spec)',
                        'partial layers: any value in [0, declared magnitude] is accepted; inverted bounds: the [min,max] window or an empty window',
                        'TLC + CommunityModules Json/IOUtils; spec/Dec.tla decimal arithmetic for the depth integral',
-                       'gas opacity fixture: flat cross-section through the real InterpolatingOpacity / AbsorptionContribution']
+                       'gas opacity fixture: flat cross-section through the real InterpolatingOpacity / AbsorptionContribution',
+                       'frame condition: the arrays a model exposes (EXPOSED in the driver) are compared after every prepare() / model() with a private copy of what the same model computed for the same settings with gas absorption only']
     ctx.check_spec('exhaustive', 'MC_Clouds', 'MC_Clouds_%s.cfg' % ctx.tier, need_actions=('EvalDeck', 'EvalFlat', 'EvalLee'))
     ctx.expect_refuted('maxnorm-refuted', 'MC_Clouds', 'MC_Clouds_maxnorm.cfg', 'DeclaredMagnitudeInside')
     ctx.check_spec('mix', 'MC_CloudsMix', 'MC_CloudsMix_%s.cfg' % ctx.tier, need_actions=('Add', 'EarlyExit', 'Finish'))
     ctx.expect_refuted('mix-any-refuted', 'MC_CloudsMix', 'MC_CloudsMix_any.cfg', 'SumOrLicensed')
+    # several clouds / hazes in one model: each keeps its own range because nobody writes into the arrays the model
+    # exposes; a slab that leaves its working representation there is the expected counterexample
+    ctx.check_spec('slabs', 'MC_CloudsSlabs', 'MC_CloudsSlabs_%s.cfg' % ctx.tier, workers=4 if q else 16,
+                   need_actions=() if q else ('AddSlab', 'Prepare'))
+    for which in (['levels', 'layers'][ctx.seed % 2:][:1] if q else ['levels', 'layers']):
+        ctx.expect_refuted('slabs-inplace-%s-refuted' % which, 'MC_CloudsSlabs', 'MC_CloudsSlabs_%s.cfg' % which, 'EachSlabOwnRange')
     ctx.exhaustive = True
     X = setup()
     rng = random.Random(ctx.seed * 15485863 + 19)
@@ -749,7 +1045,8 @@ def run(ctx):
         vecs = keep + rest[:1500]
     nev = run_vectors(ctx, vecs, X, rng)
     ctx.note('binding A: %d exported vectors, %d real runs judged' % (len(vecs), nev))
-    run_random(ctx, X, rng, 24 if q else 400, 30 if q else 60, 40 if q else 100)
+    pre = run_slab_vectors(ctx, X, 100 if q else 1500)
+    run_random(ctx, X, rng, 24 if q else 400, 30 if q else 60, 40 if q else 100, pre=pre)
     ctx.note('mix events: %(mix_events)d; tangent layers opaque in the line cores AND transparent in the windows with haze present: '
              '%(mixed_layers)d; layers under the tau>10 licence at every wavenumber: %(licensed_layers)d' % STATS)
     if STATS['mixed_layers'] < 20 or STATS['licensed_layers'] < 5:
@@ -775,11 +1072,32 @@ def replay(ctx, violations):
         eid = 'R%d' % i
         base_cls = v['cls'].split(':exact-zero')[0].split(':1e-12')[0]
         want_mix = bool(vec.get('mix_only') or (vec.get('mix') and not vec.get('random')))
-        if vec.get('random') and 'long' in vec:
+
+        def pick_sub(info):
+            for se, scls, sinfo, sub in info.get('_extra', []):
+                if sub == vec['sub']:
+                    return se
+            raise Machinery('replay: slab event %r not produced again' % vec['sub'])
+
+        if vec.get('slabvec'):
+            e, cls, info, subs, specs = slab_vector_events(X, vec['slabvec'], vec['pclass'], vec['with_abs'], eid, cache)
+            if vec.get('sub'):
+                hit = [x for x in subs if x[3] == vec['sub']]
+                if not hit:
+                    raise Machinery('replay: slab event %r not produced again' % vec['sub'])
+                se, scls, sinfo, sub, sigma, mag, idx = hit[0]
+                if v['cls'] != base_cls:
+                    exact_checks(ctx, se, specs[idx]['adm'], sigma, mag, base_cls, vec)
+                    continue
+                e = se
+            e = dict(e, id=eid)
+        elif vec.get('random') and 'long' in vec:
             world, grid, seq = long_sequence(X, vec['wsub'], vec['n'], vec['long'] + 1)
             e, cls, recipe, info = seq[-1]
             if want_mix:
                 e = info.get('_mix')
+            if vec.get('sub'):
+                e = pick_sub(info)
             if e is None:
                 raise Machinery('replay: event not produced again')
             e = dict(e, id=eid)
@@ -791,6 +1109,8 @@ def replay(ctx, violations):
             e, cls, recipe, info = random_event(world, grid, vec['esub'], eid, vec['run_model'], mix=vec.get('mix', False))
             if want_mix:
                 e = dict(info['_mix'], id=eid)
+            if vec.get('sub'):
+                e = dict(pick_sub(info), id=eid)
         else:
             base = {k: vec[k] for k in vec if k not in ('event', 'pclass', 'mix')}
             world = world_for_grid(X, base['lev'], vec['pclass'], cache)
@@ -809,7 +1129,7 @@ def replay(ctx, violations):
                     continue
             if want_mix:
                 e = dict(info['_mix'], id=eid)
-        if e.get('raised') and e['ev'] == 'mix':
+        if e.get('raised') and e['ev'] in ('mix', 'slabs'):
             ctx.verdict(v['clause'], False, cls=v['cls'], detail='replay: model() raised %s' % e.get('exception'), vector=vec)
             continue
         items.append((v, e, base_cls))
